@@ -10,7 +10,7 @@ RELUTIL = {"pkg": "./pkg/release/util", "files": ["pkg/release/util/h_c08_part.g
 
 REPOPKG = {"pkg": "./pkg/repo", "files": ["pkg/repo/h_c18_index.go"]}
 
-ACTION = {"pkg": "./pkg/action", "files": ["pkg/action/h_common.go", "pkg/action/h_smoke.go", "pkg/action/h_c01_hist.go", "pkg/action/h_c06_dryrun.go", "pkg/action/h_c12_hooks.go", "pkg/action/h_c07_own.go", "pkg/action/h_c14_schema.go", "pkg/action/h_tree.go", "pkg/action/h_c13_reuse.go", "pkg/action/h_c13_deployed.go", "pkg/action/h_c05_order.go", "pkg/action/h_c09_conc.go", "pkg/action/h_c02_uninstall.go", "pkg/action/h_c02_hist.go"]}
+ACTION = {"pkg": "./pkg/action", "files": ["pkg/action/h_common.go", "pkg/action/h_smoke.go", "pkg/action/h_c01_hist.go", "pkg/action/h_c06_dryrun.go", "pkg/action/h_c12_hooks.go", "pkg/action/h_c07_own.go", "pkg/action/h_c14_schema.go", "pkg/action/h_tree.go", "pkg/action/h_c13_reuse.go", "pkg/action/h_c13_deployed.go", "pkg/action/h_c13_chain.go", "pkg/action/h_c05_order.go", "pkg/action/h_c09_conc.go", "pkg/action/h_c02_uninstall.go", "pkg/action/h_c02_hist.go"]}
 
 CHARTUTIL = {"pkg": "./pkg/chart/v2/util", "files": ["pkg/chart/v2/util/h_values.go"]}
 
@@ -100,7 +100,7 @@ CHECKS = {
         "bounds": {}, "assumptions": [],
     },
     "C13": {
-        "runs": [dict(ACTION, entries=["H13Reuse", "H13Rollback", "H13Deployed"], bounds_quick={"depth": 1, "slim": 1, "defdepth": 0}, bounds_thorough={"depth": 2, "slim": 1, "defdepth": 1}, limits={"max_instrs": 20000000, "max_decisions": 2000})],
+        "runs": [dict(ACTION, entries=["H13Reuse", "H13Rollback", "H13Deployed", "H13Chain"], bounds_quick={"depth": 1, "slim": 1, "defdepth": 0, "chainsteps": 2}, bounds_thorough={"depth": 2, "slim": 1, "defdepth": 1, "chainsteps": 3}, limits={"max_instrs": 20000000, "max_decisions": 2000})],
         "bounds": {}, "assumptions": [],
     },
     "C14": {
